@@ -211,21 +211,60 @@ class Recorder:
         self.calls = []
 
 
-def spy_jump_increment(model, rng: ScriptedRNG, rec: Recorder):
-    """Wrap the real `model.jump_increment` (instance attribute; the simulators look it up on the model at every path)."""
-    real = model.jump_increment
+# The spies are module-level objects that find the scripted RNG and the recorder of the case in progress through this
+# registry (one Driver is open at a time in a process).  They hold no reference to either, so that copy.deepcopy and a
+# dill round trip of a spied simulator (what the engines' pool does to the process) give a simulator that is still
+# spied by the SAME rng / recorder: dill pickles module-level functions and classes of an importable module by reference,
+# whereas a closure would be pickled by value together with private copies of the rng and of the recorder.
+_ACTIVE = {"rng": None, "rec": None, "real_sample": {}}
 
-    def jump_increment(n):
+
+class _JumpIncrementSpy:
+    """callable standing for `model.jump_increment` (instance attribute): runs the real bound method in the "jumpsize"
+    context and records what it returned.  A deep / dill copy of the model gets a spy bound to the COPY's method."""
+
+    def __init__(self, real):
+        self.real = real
+
+    def __call__(self, n):
+        rng, rec = _ACTIVE["rng"], _ACTIVE["rec"]
+        if rng is None:
+            return self.real(n=n)
         prev = rng.context
         rng.context = "jumpsize"
         try:
-            out = real(n=n)
+            out = self.real(n=n)
         finally:
             rng.context = prev
         rec.calls.append(np.array(out, dtype=float).ravel().copy())
         return out
 
-    model.jump_increment = jump_increment
+
+def spy_jump_increment(model, rng: ScriptedRNG, rec: Recorder):
+    """Wrap the real `model.jump_increment` (instance attribute; the simulators look it up on the model at every path)."""
+    _ACTIVE["rng"], _ACTIVE["rec"] = rng, rec
+    model.jump_increment = _JumpIncrementSpy(model.jump_increment)
+
+
+def _real_sample_of(obj):
+    for klass in type(obj).__mro__:
+        real = _ACTIVE["real_sample"].get(klass)
+        if real is not None:
+            return real
+    raise ProtocolError(f"no real sample() registered for {type(obj).__name__}")
+
+
+def _spied_sample(self, size=1):
+    rng, rec = _ACTIVE["rng"], _ACTIVE["rec"]
+    real = _real_sample_of(self)
+    prev = rng.context
+    rng.context = "state"
+    try:
+        out = real(self, size=size)
+    finally:
+        rng.context = prev
+    rec.calls.append([tuple(int(v) for v in np.atleast_1d(s)) for s in out])
+    return out
 
 
 @contextlib.contextmanager
@@ -234,22 +273,15 @@ def spy_sampler_class(sampler, rng: ScriptedRNG, rec: Recorder):
     the couplings build a fresh sampler of the same class at every level, so the class is the stable place)."""
     cls = type(sampler)
     real = cls.sample
-
-    def sample(self, size=1):
-        prev = rng.context
-        rng.context = "state"
-        try:
-            out = real(self, size=size)
-        finally:
-            rng.context = prev
-        rec.calls.append([tuple(int(v) for v in np.atleast_1d(s)) for s in out])
-        return out
-
-    cls.sample = sample
+    _ACTIVE["rng"], _ACTIVE["rec"] = rng, rec
+    _ACTIVE["real_sample"][cls] = real
+    cls.sample = _spied_sample
     try:
         yield
     finally:
         cls.sample = real
+        _ACTIVE["real_sample"].pop(cls, None)
+        _ACTIVE["rng"] = _ACTIVE["rec"] = None
 
 
 # ----------------------------------------------------------------------------------------------------------------------
@@ -266,10 +298,39 @@ PRODUCTS = {
     "asian-y3": ("asian", "YEARLY", 3.0),  # 3 intervals of length 1
     "asian-m2": ("asian", "MONTHLY", 2.0 / 12.0),  # 2 intervals of length 1/12
     "asian-m3": ("asian", "MONTHLY", 0.25),  # 3 intervals of length 1/12
+    # many dates (accumulation over the product dates)
+    "asian-m24": ("asian", "MONTHLY", 2.0),  # 24 intervals of length 1/12
+    "asian-w26": ("asian", "WEEKLY", 0.5),  # 26 intervals of length 1/52
 }
 
+FORMS = ("int", "np", "0d")
 
-def make_product(name: str, stochastic_dates: bool):
+
+def as_form(x, form, exact32=False):
+    """The number x in another legal form of a maturity / maximum step: "int" Python int (None when x is not integral),
+    "np" numpy scalar (np.float32 when asked for and exactly representable, np.float64 otherwise), "0d" 0-d float array."""
+    if x is None or form is None:
+        return x
+    if form == "int":
+        return int(x) if float(x) == int(x) else None
+    if form == "np":
+        if exact32 and float(np.float32(x)) == float(x):
+            return np.float32(x)
+        return np.float64(x)
+    if form == "0d":
+        return np.array(float(x))
+    raise ValueError(form)
+
+
+def n_intervals(name: str) -> int:
+    kind, disc, maturity = PRODUCTS[name]
+    if kind == "spot":
+        return 1
+    yf = {"YEARLY": 1.0, "MONTHLY": 1.0 / 12.0, "WEEKLY": 1.0 / 52.0}[disc]
+    return int(maturity / yf)
+
+
+def make_product(name: str, stochastic_dates: bool, form=None):
     """Real Product: Spot / Asian underlying (the two producers of time grids in rpylib.product.underlying), identity payoff
     whose payoff_dates_type selects fixed-date (DETERMINISTIC) or jump-time (STOCHASTIC) simulation."""
     from rpylib.product.payoff import PayoffDates, PayoffOnTheFly
@@ -277,6 +338,10 @@ def make_product(name: str, stochastic_dates: bool):
     from rpylib.product.underlying import Asian, Discretisation, Spot
 
     kind, disc, maturity = PRODUCTS[name]
+    if form is not None:
+        maturity = as_form(maturity, form)
+        if maturity is None:
+            raise ValueError(f"maturity of {name} has no form {form}")
     und = Spot() if kind == "spot" else Asian(getattr(Discretisation, disc))
     pay = PayoffOnTheFly(lambda x: x)
     pay.payoff_dates_type = PayoffDates.STOCHASTIC if stochastic_dates else PayoffDates.DETERMINISTIC
@@ -345,8 +410,16 @@ class Driver:
     use:  with Driver(sim, product_name, mode, eps).open(first_script) as d:  d.simulate(script) ...
     """
 
-    def __init__(self, sim: str, product_name: str, mode: str, eps):
+    def __init__(self, sim: str, product_name: str, mode: str, eps, form=None):
+        """`form`: the maturity of the product and the maximum step are handed to the library as Python int / numpy scalar /
+        0-d array (see as_form) instead of Python floats; `eps` stays the float the oracle works with."""
         self.sim, self.product_name, self.mode, self.eps = sim, product_name, mode, eps
+        self.form = form
+        self.eps_arg = eps
+        if form is not None and eps is not None:
+            self.eps_arg = as_form(eps, form, exact32=True)
+            if self.eps_arg is None:
+                self.eps_arg = eps  # not integral: the float itself (the maturity still has the form)
         self.cls, self.model_name, self.levels = SIMS[sim][:3]
         self.method_name = SIMS[sim][3] if len(SIMS[sim]) > 3 else "INVERSION"
         self.route = SIMS[sim][4] if len(SIMS[sim]) > 4 else "direct"
@@ -354,7 +427,8 @@ class Driver:
         self.other = None  # a second simulator of the same class (see other_object)
         self.rng = ScriptedRNG()
         self.rec = Recorder()
-        self.product = make_product(product_name, stochastic_dates=(mode != "fixed"))
+        self.product = make_product(product_name, stochastic_dates=(mode != "fixed"), form=form)
+        self.path_managers = None
         self.grid_times = np.array([float(t) for t in self.product.times_grid()])
         self.maturity = float(self.product.maturity)
         self.obj = None
@@ -410,12 +484,13 @@ class Driver:
             stack.enter_context(self.rng.installed())
             obj = self._build()
             self.obj = obj
-            eps = self.eps
+            eps = self.eps_arg
             n_batch = max(1, len(counts) // max(1, len(self.grid_times) - 1)) if self.mode == "fixed" else 1
             self.n_batch = n_batch
             self.rng.begin_path(counts, times)
             if self.cls == "levy":
                 spy_jump_increment(obj.model, self.rng, self.rec)
+                stack.callback(lambda: _ACTIVE.update(rng=None, rec=None))
                 obj.initialisation(self.product, max_step_epsilon=eps)
                 obj.pre_computation(n_batch, self.product)
                 self.proc = obj
@@ -427,6 +502,14 @@ class Driver:
             else:
                 stack.enter_context(spy_sampler_class(obj.fine_process.sampling, self.rng, self.rec))
                 obj.initialisation(self.product, max_step_epsilon=eps)
+                pms = None
+                if self.route == "engine" and self.levels > 0:
+                    # the multilevel engine hands its list of path managers to next_level (the branch of next_level that
+                    # builds the fine / coarse deterministic paths)
+                    from rpylib.montecarlo.path import MLMCPath
+
+                    pms = [MLMCPath(deterministic_path=obj.fine_process.deterministic_path, activate_spot_underlying=False)]
+                    self.path_managers = pms
                 for lev in range(self.levels):
                     last = lev == self.levels - 1
                     if self.route == "engine":
@@ -437,7 +520,7 @@ class Driver:
                         self.obj = obj
                         self.rng.begin_path(counts, times)
                     # intermediate levels pre-compute nothing (0 paths); the last one pre-draws the batch
-                    obj.next_level(mc_paths=n_batch if last else 0, path_managers=None, product=self.product,
+                    obj.next_level(mc_paths=n_batch if last else 0, path_managers=pms, product=self.product,
                                    max_step_epsilon=eps)
                 if self.levels == 0:
                     obj.pre_computation(n_batch, self.product)
@@ -544,16 +627,18 @@ class Driver:
             obj.simulate_one_path()
         self.rec.reset()
 
-    def precompute_again(self, counts=(), reinit=False):
+    def precompute_again(self, counts=(), reinit=False, n_paths=None):
         """A second public `pre_computation` on the same object (the engines call reset_one_simulation_cost and
         pre_computation once per pass); with `reinit` the public `initialisation` for the same product and maximum step comes
         first (the engines call it once per pricing). `counts` is the script of the jump counts pre-drawn (fixed dates;
         nothing is drawn in the other modes). Returns the number of paths."""
         n = max(1, len(self.grid_times) - 1)
         n_batch = max(1, len(counts) // n) if self.mode == "fixed" else 1
+        if n_paths is not None:
+            n_batch = n_paths  # 0 = nothing to pre-compute (what next_level does at an intermediate level)
         self.rng.begin_path(counts, ())
         if reinit:
-            self.obj.initialisation(self.product, max_step_epsilon=self.eps)
+            self.obj.initialisation(self.product, max_step_epsilon=self.eps_arg)
         elif hasattr(self.obj, "reset_one_simulation_cost"):
             self.obj.reset_one_simulation_cost()
         self.obj.pre_computation(n_batch, self.product)
@@ -561,6 +646,22 @@ class Driver:
         self.pre_lams = list(self.rng.poisson_lams)
         self.n_batch = n_batch
         return n_batch
+
+    def pool_copy(self, how):
+        """What the pool branch of the engines does between pre_computation and the simulations: the paths are simulated by a
+        copy of the simulator ("dill": dumps / loads, what a worker receives with the closure of its chunk; "deepcopy").  From
+        now on the copy is the simulator of the case (its pre-drawn variates are copies of the original's)."""
+        if how == "dill":
+            import dill
+
+            new = dill.loads(dill.dumps(self.obj))
+        elif how == "deepcopy":
+            new = copy.deepcopy(self.obj)
+        else:
+            raise ValueError(how)
+        self.obj = new
+        self.proc = new.fine_process if self.cls.startswith("coupling") else new
+        return new
 
     def other_object(self, next_level=True):
         """A second simulator of the same class, obtained as the multilevel engine obtains the object of the next level:
@@ -571,7 +672,7 @@ class Driver:
         self.rng.begin_path(counts if self.mode == "fixed" else (), ())
         if self.other is None and self.cls.startswith("coupling") and next_level:
             self.other = copy.deepcopy(self.obj)
-            self.other.next_level(mc_paths=1, path_managers=None, product=self.product, max_step_epsilon=self.eps)
+            self.other.next_level(mc_paths=1, path_managers=None, product=self.product, max_step_epsilon=self.eps_arg)
             self._other_coupled = True
         else:
             if self.other is None:
